@@ -161,7 +161,7 @@ def to_trace(sc, res, k):
 
 
 STALE = [False, "longer", "same", "ragged"]
-OPTS = ("form", "paths", "outdef", "qcdir", "nc_out", "odtype", "hexp", "kind", "prev", "nruns", "k_filter", "reject", "wrot")
+OPTS = ("form", "paths", "outdef", "qcdir", "nc_out", "odtype", "hexp", "kind", "rkw", "prev", "nruns", "k_filter", "reject", "wrot")
 
 
 def decorate(ctx, s, j):
@@ -173,6 +173,7 @@ def decorate(ctx, s, j):
     s["stale"] = STALE[j % 4] if ctx.quick else (STALE + [False, "longer", "failed", "ragged"])[j % 8]
     if j % 9 == 4:
         s["kind"] = "NP2.4"
+        s["rkw"] = {"sort": False}                  # reader_kwargs: a four-shank probe is stored in an order that is not the sorted one
     elif j % 9 == 8:
         s["kind"] = ["3A", "NP2.1"][(j // 9) % 2]
     elif j % 4 == 3:
